@@ -15,31 +15,31 @@ CHECKS = [
      "property-based testing: deterministic cluster simulation driven by rapid, invariant over the history (committed-entry registry + state-machine hash chain)", "DESIGN.md 5/C01"),
  sim("C02", "Generated election-heavy histories; oracles: one (id,incarnation) leader per term, one candidate per (voter,term) at vote release with durable vote, up-to-date rule on every granted vote, quorum of delivered grants (reference majority function) at every transition to leader.",
      "property-based testing: rapid-driven cluster simulation, invariants over the election history with a reference majority model", "DESIGN.md 5/C02"),
- sim("C03", "After every action the touched node's logical log is compared with a global (index,term) -> (content, predecessor term) registry (equivalent to pairwise log matching by induction); contiguity and term monotonicity are checked directly; every MsgApp on the wire is checked the same way.",
+ sim("C03", "After every action the touched node's logical log is compared with a global (index,term) -> (content, predecessor term) registry (equivalent to pairwise log matching by induction); contiguity and term monotonicity are checked directly; every MsgApp on the wire is checked the same way. Part of the check is also the single-node log driver (harness/logm L3: one RawNode with AsyncStorageWrites fed by scripted, possibly stale leaders and compared step by step with a reference follower), run under this property for the clauses it decides.",
      "property-based testing: rapid-driven cluster simulation, log-matching invariant via a global entry registry", "DESIGN.md 5/C03"),
- sim("C04", "On every transition to leader the new leader's log is compared with every entry committed in an earlier term; every log mutation is checked not to replace or truncate a committed entry the node held.",
+ sim("C04", "On every transition to leader the new leader's log is compared with every entry committed in an earlier term; every log mutation is checked not to replace or truncate a committed entry the node held; entry content is compared, not only (index, term); entries that some node reported committed at an index where another entry was committed first count as well.",
      "property-based testing: rapid-driven cluster simulation, leader-completeness invariant against the committed registry", "DESIGN.md 5/C04"),
- sim("C05", "Two generated searches with one oracle. (a) Crash-dominated random histories with crash points between all Ready sub-steps and storage-thread steps. (b) Single-crash fault enumeration: rapid draws a crash-free base schedule whose Ready sub-steps and storage-thread steps are separate actions, and it is replayed once for every (action boundary, node, crash variant in {plain, partial append, lost un-synced hard state, both}), each followed by a restart and a drain - complete per base schedule, base schedules sampled. Oracle: at the instant a promise-carrying message is handed to the network the sender's durable (fsynced) storage, owned by the harness, must contain the promised state; a leader's term must be durable while it acts as leader; C01-C04 monitors stay on across crashes.",
+ sim("C05", "Two generated searches with one oracle. (a) Crash-dominated random histories with crash points between all Ready sub-steps and storage-thread steps. (b) Single-crash fault enumeration: rapid draws a crash-free base schedule whose Ready sub-steps and storage-thread steps are separate actions, and it is replayed once for every (action boundary, node, crash variant in {plain, partial append, lost un-synced hard state, both}), each followed by a restart and a drain - complete per base schedule, base schedules sampled. Oracle: at the instant a promise-carrying message is handed to the network the sender's durable (fsynced) storage, owned by the harness, must contain the promised state; a leader's term must be durable while it acts as leader; C01-C04 monitors stay on across crashes. Part of the check is also the single-node log driver (harness/logm L3: one RawNode with AsyncStorageWrites fed by scripted, possibly stale leaders and compared step by step with a reference follower), run under this property for the clauses it decides.",
      "property-based testing with fault injection: rapid-drawn crash points plus complete single-crash enumeration over rapid-generated base schedules (recorded-draw replay), release-time durability oracle on harness-owned storage", "DESIGN.md 5/C05 and 11.1", category="fault_enumeration"),
  sim("C06", "At every leader commit advance the entry must be of the leader's term and durably held by a reference-computed majority of each voter set (read from harness-owned storages); commit <= last index everywhere; follower commit never beyond any leader's commit nor off the committed prefix.",
      "property-based testing: rapid-driven cluster simulation, durable-quorum oracle computed from the nodes' storages", "DESIGN.md 5/C06"),
- sim("C07", "Exposed hard states within an incarnation and persisted hard states over the whole life are checked for monotone term/commit and one vote per term; after restart the node resumes exactly the durable hard state and never sends a message below it.",
+ sim("C07", "Exposed hard states within an incarnation and persisted hard states over the whole life are checked for monotone term/commit and one vote per term; after a Ready is taken the last exposed hard state equals the node's current one; after restart the node resumes exactly the durable hard state and never sends a message below it.",
      "property-based testing: rapid-driven cluster simulation with crash/restart, monotonicity invariants over exposed and persisted hard-state sequences", "DESIGN.md 5/C07"),
- sim("C08", "A per-incarnation cursor model of the apply stream: each batch starts at the cursor, is contiguous, within commit, never overlaps a pending snapshot; async batches must be in the durable log.",
+ sim("C08", "A per-incarnation cursor model of the apply stream: each batch starts at the cursor, is contiguous, within commit, never overlaps a pending snapshot; async batches must be in the durable log. Part of the check is also the single-node log driver (harness/logm L3: one RawNode with AsyncStorageWrites fed by scripted, possibly stale leaders and compared step by step with a reference follower), run under this property for the clauses it decides.",
      "property-based testing: rapid-driven cluster simulation, cursor model of the apply stream", "DESIGN.md 5/C08"),
  sim("C09", "Every delivered MsgSnap is classified (must-not-install / may install) from the receiver's pre-state and the post-state is checked; every MsgSnap put on the wire is compared with the committed registry (index, term, membership, state).",
      "property-based testing: rapid-driven cluster simulation with aggressive compaction, pre/post-state oracle for snapshot delivery", "DESIGN.md 5/C09"),
- sim("C10", "Every ConfState returned by ApplyConfChange and every active config is compared with an independent set-based reference model folded over the committed conf-change entries; leaders' own-term conf entries are checked for one-at-a-time, campaigns for no known-committed unapplied change, elections and commits for joint quorums, auto-leave for its precondition.",
+ sim("C10", "Every ConfState returned by ApplyConfChange and every active config is compared with an independent set-based reference model folded over the committed conf-change entries; leaders' own-term conf entries are checked for one-at-a-time, campaigns for no known-committed unapplied change, elections, commits and read confirmations for joint quorums, auto-leave for its precondition.",
      "property-based testing: rapid-driven cluster simulation with conf-change-heavy generator, reference configuration model as oracle", "DESIGN.md 5/C10"),
  sim("C11", "Every ReadState is checked end-to-end (own context, index >= highest commit index handed out in any Ready when the read was issued) and at the leader (leader role, own-term commit, heartbeat acks causally after receipt from a reference-computed majority unless sole voter).",
      "property-based testing: rapid-driven cluster simulation with partitions and competing elections, history invariant with causal message tracking", "DESIGN.md 5/C11"),
- sim("C14", "Union-profile generated histories following the documented contract; every call into raft and MemoryStorage is wrapped in recover(); any panic is a violation.",
+ sim("C14", "Union-profile generated histories following the documented contract; every call into raft and MemoryStorage is wrapped in recover(); any panic is a violation. The goroutine wrapper raft.Node (node.go), which the simulator bypasses, is driven separately: four real Nodes, operations drawn by rapid, safety-only oracles (harness/nodeapi); a logger panic inside node.run is a violation.",
      "property-based testing / robustness fuzzing of the RawNode API under a contract-respecting generated application and network", "DESIGN.md 5/C14"),
- sim("C16", "Model of outstanding entry-bearing appends per (leader, follower, replicate-epoch) independent of Inflights; encoded size of every multi-entry MsgApp; no appends while a snapshot is pending; windowed uncommitted-size accounting.",
+ sim("C16", "Model of outstanding entry-bearing appends per (leader, follower, replicate-epoch) independent of Inflights; encoded size of every multi-entry MsgApp; no appends while a snapshot is pending; windowed uncommitted-size accounting (a window ends at every apply acknowledgement). Plus tracker-level models: Inflights (ring buffer of every size, bursts, wrap-around, byte limit) and Progress (state machine, pause flag, rejections) against reference models written from their doc comments (harness/pure TestC16Flow).",
      "property-based testing: rapid-driven cluster simulation with tiny limits, independent flow-control model as oracle", "DESIGN.md 5/C16"),
  sim("C17", "PreVote gate (delivered pre-vote grants for exactly the new term from a reference-computed majority before any term-raising campaign), MsgPreVote never changes (term, vote), one-directional lease oracle, bounded CheckQuorum step-down.",
      "property-based testing: rapid-driven cluster simulation with mixed PreVote/CheckQuorum nodes, invariants over the election history", "DESIGN.md 5/C17"),
- sim("C20", "Every proposal carries a unique tag; every new (index,term) entry anywhere must carry exactly a proposed payload, at most once per delivery of the proposal to a leader; dropped proposals append nothing; batch order and adjacency; accounting of empty entries.",
+ sim("C20", "Every proposal carries a unique tag; every new (index,term) entry anywhere must carry exactly a proposed payload, at most once per delivery of the proposal to a leader; dropped proposals append nothing; batch order and adjacency; accounting of empty entries. The same ledger is kept for proposals made through raft.Node.Propose on four real Nodes (harness/nodeapi): applied payloads were proposed, at most once, never after ErrProposalDropped.",
      "property-based testing: rapid-driven cluster simulation, proposal ledger as oracle over every log", "DESIGN.md 5/C20"),
 ]
 
@@ -53,7 +53,7 @@ CHECKS += [
       level_claimed=dict(category="exploration", text="quorum.MajorityConfig/JointConfig are compared with a reference definition (largest index acked by a strict majority; Won/Lost/Pending) on every voter set over ids {1..6} x every ack/vote vector (joint: every pair of sets over {1..4}), and on rapid-generated sets up to 15 members with hostile ids/indexes; plus monotonicity and order-independence relations.", design_ref="DESIGN.md 5/C12"),
       level_note=PURE_NOTE),
  dict(property_id="C13", engine="PURE", technique="model-based property testing: rapid stateful programs of conf changes against an independent set-based reference model, plus bounded exhaustive closure (BFS) of the reachable configuration space",
-      level_claimed=dict(category="exploration", text="confchange.Changer (dispatched like raft.applyConfChange) is compared with an independent reference model on accept/reject and result, with the listed invariants, input purity and the ConfState/Restore round trip through the wire, on generated programs over ids {0..6} and on the complete reachable space over ids {1..3} (quick) / {1..4} (thorough) with all changes of <=2 singles.", design_ref="DESIGN.md 5/C13"),
+      level_claimed=dict(category="exploration", text="confchange.Changer (dispatched like raft.applyConfChange) is compared with an independent reference model on accept/reject and result, with the listed invariants, input purity and the ConfState/Restore round trip through the wire, on generated programs over ids {0..6} (a quarter of the operations are direct Changer.Simple/EnterJoint/LeaveJoint calls with arbitrary singles) and on the complete reachable space over ids {1..3} (quick) / {1..4} (thorough) with all changes of <=2 singles.", design_ref="DESIGN.md 5/C13"),
       level_note=PURE_NOTE),
 ]
 
@@ -92,10 +92,12 @@ def main():
                  kind_free_text="deterministic cluster simulator over RawNode; every choice is a rapid draw; monitors are invariants over the history"),
             dict(name="REPLAY", path="harness/replay", serves_properties=["C19"],
                  kind_free_text="determinism differ: the whole simulation is re-run from recorded draws in-process and in a child process"),
-            dict(name="LOG", path="harness/logm", serves_properties=["C18"],
+            dict(name="LOG", path="harness/logm", serves_properties=["C18", "C03", "C05", "C08"],
                  kind_free_text="model-based tests of MemoryStorage, raftLog (VerifLog hook) and a single async RawNode against an abstract log / reference follower"),
-            dict(name="PURE", path="harness/pure", serves_properties=["C12", "C13"],
+            dict(name="PURE", path="harness/pure", serves_properties=["C12", "C13", "C16"],
                  kind_free_text="function-level property tests against reference models (harness/refmodel); exhaustive small domains + rapid-generated inputs"),
+            dict(name="NODE", path="harness/nodeapi", serves_properties=["C14", "C20"],
+                 kind_free_text="four real raft.Node instances (goroutines) driven by one harness goroutine whose operations are rapid draws; safety-only oracles over the history (the schedule inside node.run is not fully owned)"),
         ],
         checks=checks,
         not_applicable=[dict(property_id=k, reason=v) for k, v in sorted(NOT_YET.items()) if k not in claimed],
